@@ -159,7 +159,13 @@ func (c *EvalCtx) keyTerm(k *V, e *Expr) string {
 }
 
 func (s *State) mapHas(h *mapHandle, key string) string {
-	return selN(s.comp(h.fam+"#dom", 2, "Bool"), []string{h.ref, key})
+	dom := s.comp(h.fam+"#dom", 2, "Bool")
+	if !s.mapAx["nil/"+dom] {
+		// the nil map has no keys (reference 0 is never an object; writes through it panic)
+		s.mapAx["nil/"+dom] = true
+		s.assume("(forall ((k Int)) (! (not (select (select " + dom + " 0) k)) :pattern ((select (select " + dom + " 0) k))))")
+	}
+	return selN(dom, []string{h.ref, key})
 }
 
 func (s *State) mapGet(h *mapHandle, key string) *V {
@@ -230,7 +236,7 @@ func (c *EvalCtx) eval(e *Expr) *V {
 			c.fail("old() not available here")
 		}
 		n := *c
-		n.st = c.old
+		n.st = c.old.viewFor(c.st)
 		if c.oldVars != nil {
 			n.vars = make(map[string]*V, len(c.vars)+len(c.oldVars))
 			for k, x := range c.vars {
@@ -248,7 +254,7 @@ func (c *EvalCtx) eval(e *Expr) *V {
 		}
 		{
 			n := *c
-			n.st = c.run.entry
+			n.st = c.run.entry.viewFor(c.st)
 			n.vars = make(map[string]*V, len(c.vars)+len(c.run.entry.params))
 			for k, x := range c.vars {
 				n.vars[k] = x
@@ -1208,6 +1214,7 @@ func (c *EvalCtx) evalCall(e *Expr) *V {
 		}
 		{
 			fam := e.Args[0].Str
+			c.registerMapLeaves(fam)
 			var cs []string
 			for _, leaf := range sortedKeys(eng.compSort) {
 				if leaf == fam || strings.HasPrefix(leaf, fam+"#") {
@@ -1216,6 +1223,24 @@ func (c *EvalCtx) evalCall(e *Expr) *V {
 					nw, od := st.comp(leaf, lv, ls), c.old.comp(leaf, lv, ls)
 					cs = append(cs, "(forall (("+x+" Int)) (! (=> (< "+x+" "+c.old.ghost["alloc"]+") (= (select "+nw+" "+x+") (select "+od+" "+x+"))) :pattern ((select "+nw+" "+x+"))))")
 				}
+			}
+			return vBool(sAnd(cs...))
+		}
+	case "oldlocks":
+		// oldlocks(): lock state (held, acquisition counters) of every lock that existed in the pre-state is unchanged;
+		// a lock embedded in a struct is as old as the struct
+		argc(0)
+		if c.old == nil {
+			c.fail("oldlocks() needs a pre-state")
+		}
+		{
+			var cs []string
+			a0 := c.old.ghost["alloc"]
+			for _, leaf := range []string{"held", "lockacq"} {
+				x := mangle("q:l")
+				nw, od := st.comp(leaf, 1, "Int"), c.old.comp(leaf, 1, "Int")
+				isOld := "(ite (= (objkind " + x + ") 0) (< " + x + " " + a0 + ") (< (objowner " + x + ") " + a0 + "))"
+				cs = append(cs, "(forall (("+x+" Int)) (! (=> "+isOld+" (= (select "+nw+" "+x+") (select "+od+" "+x+"))) :pattern ((select "+nw+" "+x+"))))")
 			}
 			return vBool(sAnd(cs...))
 		}
@@ -1230,6 +1255,7 @@ func (c *EvalCtx) evalCall(e *Expr) *V {
 		}
 		var cs []string
 		fam := e.Args[0].Str
+		c.registerMapLeaves(fam)
 		for leaf, sort := range eng.compSort {
 			if leaf == fam || strings.HasPrefix(leaf, fam+"#") {
 				lv, ls := sortLevels(sort)
@@ -1392,4 +1418,20 @@ func (e *Engine) finishIfaceFacts() {
 var identityTypes = map[string]bool{
 	"sync.Mutex": true, "sync.RWMutex": true, "sync.Map": true, "sync.WaitGroup": true, "sync.Once": true,
 	"bytes.Buffer": true, "container/list.List": true,
+}
+
+
+// registerMapLeaves: the domain and cardinality components of a Go map family exist whether or not the code
+// verified so far has touched them (frame clauses must cover them on every run, independent of evaluation order).
+func (c *EvalCtx) registerMapLeaves(fam string) {
+	if !strings.HasPrefix(fam, "map:") || strings.Contains(fam, "#") {
+		return
+	}
+	for _, st := range []*State{c.st, c.old} {
+		if st == nil {
+			continue
+		}
+		st.comp(fam+"#card", 1, "Int")
+		st.comp(fam+"#dom", 2, "Bool")
+	}
 }
